@@ -115,7 +115,7 @@ PROPS = {
         level="exploration",
         race=True,
         shards=8,
-        rule="case = round: one fresh shared node (sharded directory cold/warm, multi-level file) x G in {2,4,8,16} goroutines released by a barrier doing seeded mixes of lookups/iteration/Length/readers with yields injected at the memoisation hooks; every result compared with the sequential answer; race-detector reports parsed from GORACE logs and de-duplicated by innermost library frame pair; signature = (node kind, G, hooks, interleaving hash of hook events); non-trivial iff >= 2 goroutines overlapped at a hook site or in operations",
+        rule="case = round: one fresh shared node (sharded directory cold/warm, multi-level file) x G in {2,4,8,16} goroutines released by a barrier doing seeded mixes of lookups/iteration/Length/readers with yields injected at the memoisation hooks; every result compared with the sequential answer (also on directories with a missing or fanout-mismatched child shard, where the answer alone is taken on a fresh node); a stalled round is judged from stop-the-world stack snapshots (all unfinished workers parked in a lock acquisition inside the library = deadlock); race-detector reports parsed from GORACE logs and de-duplicated by innermost library frame pair; signature = (node kind, G, hooks, interleaving hash of hook events); non-trivial iff >= 2 goroutines overlapped at a hook site or in operations",
         assumptions=BASE_ASSUME + ["the Go race detector reports only races that occur in the executions produced (no false positives, possible false negatives)"],
         require={"any": {"rounds": 20, "ops_compared": 1000, "overlapped_rounds": 5}},
     ),
